@@ -325,13 +325,23 @@ def check(model, rep, tier):
   upd = [c for c in ast.walk(cu.node) if isinstance(c, ast.Call) and
          core.dotted(c.func) == 'conversion.cache_allowlisted']
   guard_ok = False
+  cu_flag = None
   for i in ast.walk(cu.node):
-    if isinstance(i, ast.If) and core.norm(i.test) == 'update_cache' and any(
+    if isinstance(i, ast.If) and core.norm(i.test) in cu.params() and any(
         c in upd for b in i.body for c in ast.walk(b)):
       guard_ok = True
-  dflt = cu.node.args.defaults
-  rep.check(len(upd) == 1 and guard_ok and dflt and isinstance(
-      dflt[-1], ast.Constant) and dflt[-1].value is True and
+      cu_flag = core.norm(i.test)
+
+  def remembers_at(call):
+    """the value the cache flag takes at a call of _call_unconverted: True /
+    False / None (not a constant)"""
+    from sa import inline as _inl
+    b_ = _inl._bind(cu.node, call, False)
+    if b_ is None or cu_flag is None or cu_flag not in b_:
+      return None
+    v_ = b_[cu_flag]
+    return v_.value if isinstance(v_, ast.Constant) and isinstance(v_.value, bool) else None
+  rep.check(len(upd) == 1 and guard_ok and
             [core.norm(a) for a in upd[0].args] == ['f', 'options'],
             'CALL-FALLBACK', '%s:remembers' % cu.site,
             'an unconverted call must be remembered in the allow-list cache '
@@ -623,8 +633,8 @@ def check(model, rep, tier):
   cuc = [c for c in ast.walk(fb.node) if isinstance(c, ast.Call) and
          core.dotted(c.func) == '_call_unconverted']
   okc = rng == (1, 1) and all(
-      [core.norm(a) for a in c.args] == ['f', 'args', 'kwargs', 'options'] and
-      not any(k.arg == 'update_cache' for k in c.keywords) for c in cuc)
+      [core.norm(a) for a in c.args][:4] == ['f', 'args', 'kwargs', 'options'] and
+      remembers_at(c) is True for c in cuc)
   rep.check(okc, 'CALL-FALLBACK', '%s:calls-unconverted-cached' % fb.site,
             '_fall_back_unconverted must end in _call_unconverted(f, args, '
             'kwargs, options) with the cache update on, on every path',
